@@ -247,7 +247,7 @@ func (env *Env) block(stmts []ast.Stmt, ind string) (string, error) {
 		}
 		return env.Ret(rs), nil
 	case *ast.IfStmt:
-		if !containsReturn(x) {
+		if !containsReturn(x) && !(env.Panic != "" && containsPanic(x)) {
 			return env.pureIf(x, rest, ind)
 		}
 		if x.Init != nil {
